@@ -10,8 +10,8 @@ PROPS = {
         "trusted_base": ["Go slice/index bounds semantics as modelled by goSlice/goIndex", UTF8,
                          "strings.SplitN(s, sep, 2) modelled by splitFirst"],
         "assumptions": [UTF8],
-        "technique": "Lean 4 proof: parser model = regular-language spec (accept-iff, totality, round-trip) + exhaustive/random correspondence with pkg/parser",
-        "level_text": "Kernel-checked theorems for every byte string: the model of ParseQualifiedName never panics, accepts exactly the qualified-name language, returns parts that recompose to the input, fails with (\"\", \"\", input), and parses every composition of valid parts back. The model is tied to pkg/parser by running all public parser entry points on every string over an 11-letter alphabet up to length 4 (5 in thorough) plus random near-valid strings and comparing with the model; the decidable judge the theorem is about also judges the implementation's own outputs.",
+        "technique": "Lean 4 proof: parser model = regular-language spec (accept-iff, totality, round-trip); character classes tied to the code by a total table produced by execution (obligations T1); exhaustive/random correspondence with pkg/parser",
+        "level_text": "Kernel-checked theorems for every byte string: the model of ParseQualifiedName never panics, accepts exactly the qualified-name language, returns parts that recompose to the input, fails with (\"\", \"\", input), and parses every composition of valid parts back. The model is tied to pkg/parser by running all public parser entry points on every string over an 11-letter alphabet up to length 4 (5 in thorough) plus random near-valid strings and comparing with the model; the decidable judge the theorem is about also judges the implementation's own outputs. For the three character classes the tie is exhaustive, not sampled: on every run parser.IsLetter/IsDigit/IsAlphaNumeric of the working tree are executed on every code point 0..0x10FFFF, the result is written as a Lean table, and obligations T1_* prove that the model's classes equal the table on every byte and that no code point >= 128 is in any class (what assumption A-utf8 needs).",
         "level_note": "Trusted: Lean kernel (+propext, Classical.choice, Quot.sound); Go slice/index semantics as modelled (goSlice/goIndex), strings.SplitN modelled by splitFirst, rune iteration on bytes (A-utf8); the hand-written model corresponds to the code only as far as the correspondence stream exercises it.",
     },
 }
@@ -48,7 +48,7 @@ PROPS["C06"] = {
                      "Go map iteration = some permutation of the keys (the model is proved order-independent)"],
     "assumptions": ["declared versions may carry one leading 'v' (I4)"],
     "technique": "Lean 4 proof: requiredVersion = max introduction version of the features used (any placement, any device order, any map iteration order); ValidateVersion iff released and >= minimum; fact obligations on the version table and loop-variable aliasing; exhaustive placement correspondence with specs-go",
-    "level_text": "Kernel-checked theorems for every Spec: the model of MinimumRequiredVersion equals the declarative maximum over the features used at spec level or in any device, is invariant under device permutations and under moving edit blocks between levels, does not depend on the order in which Go iterates the version map (right-commutativity of the update + Perm.foldl_eq'), and ValidateVersion accepts iff the declared version is released and not lower. The regenerated facts (version table, predicate names, absence of address-of-range-variable under per-loop scoping) are named obligations. The model is compared with specs.MinimumRequiredVersion/ValidateVersion on every single feature and every pair of features at every placement for 0-3 devices, all declared version strings incl. near-misses, and random larger Specs with permuted devices and nil entries.",
+    "level_text": "Kernel-checked theorems for every Spec: the model of MinimumRequiredVersion equals the declarative maximum over the features used at spec level or in any device, is invariant under device permutations and under moving edit blocks between levels, does not depend on the order in which Go iterates the version map (right-commutativity of the update + Perm.foldl_eq'), and ValidateVersion accepts iff the declared version is released and not lower. The regenerated facts (version table, predicate names, absence of address-of-range-variable under per-loop scoping) are named obligations. The model is compared with specs.MinimumRequiredVersion/ValidateVersion on every single feature and every pair of features at every placement for 0-3 devices, all declared version strings incl. near-misses, and random larger Specs with permuted devices and nil entries; every feature is also used with unusual values (zero group ids, an all-default intelRdt block, odd mount types and host paths), the deprecated cdi.MinimumRequiredVersion must agree, and evaluations are repeated while other goroutines evaluate other (large) Specs. Obligation F2 compares the released versions with the table regenerated from SPEC.md.",
     "level_note": "Trusted: Lean kernel; semver.Compare only on the nine released versions (validated by the stream); factgen's reading of version.go and go.mod.",
 }
 
@@ -60,7 +60,7 @@ PROPS["C05"] = {
     "assumptions": ["document space = JSON values with correctly typed scalars and exact-case member names (I5)",
                     "an RDT class id is legal iff shorter than 4096 bytes, not '.'/'..', without '/' or newline (I11)"],
     "technique": "Lean 4 proof: validation pipeline = declarative WellFormed (total, exact), single-defect corollaries, strict decoding; mutation correspondence through ReadSpec/Refresh/WriteSpec in JSON and YAML",
-    "level_text": "Kernel-checked theorem for every raw Spec: the model of newSpec/validate returns ok(WellFormed s) - it never panics and accepts exactly the Specs that satisfy the conjunction of the SPEC.md rules at every position (version via C06, kind via C07, annotations, edits incl. nil entries, devices, unique names); corollaries give rejection for each single defect at any position, and decoding rejects unknown and duplicate members. Tied to the code by generating well-formed documents over the optional fields and ~20 kinds of single-defect mutants at spec level and first/middle/last device, rendering each as JSON and as block YAML, and pushing it through cdi.ReadSpec (both encodings), Cache.Refresh+GetErrors (both) and Cache.WriteSpec of the parsed value; every verdict must equal the model's and satisfy the WellFormed judge.",
+    "level_text": "Kernel-checked theorem for every raw Spec: the model of newSpec/validate returns ok(WellFormed s) - it never panics and accepts exactly the Specs that satisfy the conjunction of the SPEC.md rules at every position (version via C06, kind via C07, annotations, edits incl. nil entries, devices, unique names); corollaries give rejection for each single defect at any position, and decoding rejects unknown and duplicate members. Tied to the code by generating well-formed documents over the optional fields and ~20 kinds of single-defect mutants at spec level and first/middle/last device, rendering each as JSON and as block YAML, and pushing it through cdi.ReadSpec (both encodings), Cache.Refresh+GetErrors (both) and Cache.WriteSpec of the parsed value; every verdict must equal the model's and satisfy the WellFormed judge; the exported component validators (ValidateEnv, DeviceNode/Hook/Mount/IntelRdt.Validate, the deprecated ValidateIntelRdt, ContainerEdits.Validate) are cross-checked on every block of every parsed document. Device-node types and permission characters are tied exhaustively: DeviceNode.Validate of the working tree is executed on all 65 793 type strings of at most two bytes and on every permission byte, and obligations T2/T3 compare the resulting tables with the SPEC.md sets.",
     "level_note": "Trusted: Lean kernel; the value-level decoding model; the yaml/json text codecs (third-party, fuzzed under C08); fact obligations F1/F4 on the regenerated tables.",
 }
 
@@ -76,7 +76,7 @@ PROPS["C01"] = {
     "trusted_base": CACHE_TB,
     "assumptions": ["files taking part in a same-priority conflict count as files in error (I1)"],
     "technique": "Lean 4 proof: refresh fold refined to a per-name fold, invariant over ascending-priority scans => resolution = declarative winner; lower-priority irrelevance, walk-order invariance, listings; correspondence on real directory trees",
-    "level_text": "Kernel-checked theorems for every directory population: the scan delivers only .json/.yaml files directly inside the configured directories in non-decreasing priority; the literal fold of the refresh callback resolves a name to d iff, among the loaded files defining it, the highest priority has exactly one definer and d is its definition (C01_resolve_iff, by a fold invariant, no bound on directories/files/devices); anything at lower priorities is irrelevant; permuting files does not matter; the Spec index is exactly the loaded files. Tied to the code by building random layouts (1-4 configured directories with repeats, missing/ENOTDIR/regular-file paths, valid/invalid/unparsable/empty files, non-Spec names, subdirectories, dangling and directory symlinks, files defining the same devices at equal and different priorities) on a scratch tree, refreshing a real cache and comparing ListDevices, GetDevice path/priority/definition, ListVendors, ListClasses, GetVendorSpecs and the error keys with the model and with the declarative judge.",
+    "level_text": "Kernel-checked theorems for every directory population: the scan delivers only .json/.yaml files directly inside the configured directories in non-decreasing priority; the literal fold of the refresh callback resolves a name to d iff, among the loaded files defining it, the highest priority has exactly one definer and d is its definition (C01_resolve_iff, by a fold invariant, no bound on directories/files/devices); anything at lower priorities is irrelevant; permuting files does not matter; the Spec index is exactly the loaded files. Tied to the code by building random layouts (1-4 configured directories with repeats, missing/ENOTDIR/regular-file paths, valid/invalid/unparsable/empty files, non-Spec names, subdirectories, dangling and directory symlinks, files defining the same devices at equal and different priorities) on a scratch tree, refreshing a real cache and comparing ListDevices, GetDevice path/priority/definition, ListVendors, ListClasses, GetVendorSpecs and the error keys with the model and with the declarative judge. Histories on one cache (an earlier population of the same directories is scanned first, then files are rewritten in place with the same size and modification time, repaired, broken, added, removed; or the cache first has the directories in another order) must give what the final state alone gives; sockets and character devices under Spec names; the accessor-style entry points (GetSpecErrors, Spec.GetDevice/GetVendor/GetClass, Device.GetSpec/GetQualifiedName, GetSpecDirErrors, Configure without options) are cross-checked against the primary ones on every refreshed cache.",
     "level_note": "Trusted: Lean kernel; the Walk model; the harness' description of what it put on disk. Automatic-refresh mode is covered by C11.",
 }
 
@@ -100,7 +100,7 @@ PROPS["C02"] = {
     "trusted_base": CACHE_TB + ["identity of a loaded *Spec modelled by (path, priority)"],
     "assumptions": [],
     "technique": "Lean 4 proof: loop invariant of InjectDevices => one Apply of the declaratively defined combined edit list; dependence only on requested names; metamorphic correspondence (real InjectDevices vs real Apply of the combined list)",
-    "level_text": "Kernel-checked theorems for every resolution function, request list and cache: when all names resolve, InjectDevices performs exactly one Apply of `combined` = for each device in request order the spec-level edits of its file (first time only) followed by the device's edits; the outcome depends on the cache only through the requested names. Tied to the code by random ordered requests on the C01 layouts (interleaving devices of one file with others, shadowed twins, repetitions): the harness rebuilds the combined list through the query API, applies it with the real ContainerEdits.Apply to an equal OCI spec and requires the same result as the real InjectDevices, and the model/judge require that list to equal `combined` of the declarative winners.",
+    "level_text": "Kernel-checked theorems for every resolution function, request list and cache: when all names resolve, InjectDevices performs exactly one Apply of `combined` = for each device in request order the spec-level edits of its file (first time only) followed by the device's edits; the outcome depends on the cache only through the requested names. Tied to the code by random ordered requests on the C01 layouts (interleaving devices of one file with others, shadowed twins, repetitions): the harness rebuilds the combined list through the query API, applies it with the real ContainerEdits.Apply to an equal OCI spec and requires the same result as the real InjectDevices, and the model/judge require that list to equal `combined` of the declarative winners. Every injection is repeated on the same cache (the same request twice; after a request that fails half-way) and must give the same result; every listed device is also injected through an auto-refresh cache created while no descriptor was free (no watcher: every query rescans).",
     "level_note": "Trusted: Lean kernel; ContainerEdits.Apply itself is the subject of C03, not of this check.",
 }
 
@@ -112,7 +112,7 @@ PROPS["C04"] = {
     "trusted_base": CACHE_TB,
     "assumptions": [],
     "technique": "Lean 4 proof: same loop invariant => error with exactly the unresolved names in request order (with repetitions), no Apply; nil OCI guard; unresolved iff no declarative winner; before/after comparison of the real OCI spec",
-    "level_text": "Kernel-checked theorems for every request list: if some name does not resolve, the outcome is `unresolved (req.filter unresolved)` - request order, repetitions kept - and no Apply is performed; a nil OCI spec returns all names; a name is unresolved iff the precedence rule gives no winner. Tied to the code by mixed requests (resolvable, unknown, syntactically invalid, shadowed-only, conflict-removed, repeated) on populated OCI specs with a JSON deep comparison of the spec before and after, and nil-spec calls.",
+    "level_text": "Kernel-checked theorems for every request list: if some name does not resolve, the outcome is `unresolved (req.filter unresolved)` - request order, repetitions kept - and no Apply is performed; a nil OCI spec returns all names; a name is unresolved iff the precedence rule gives no winner. Tied to the code by mixed requests (resolvable, unknown, syntactically invalid, shadowed-only, conflict-removed, repeated) on populated OCI specs with a JSON deep comparison of the spec before and after, and nil-spec calls; requests of 9-14 names most of which do not resolve; the same failing request twice on one cache.",
     "level_note": "Trusted: Lean kernel; that returning before Apply leaves the caller's object untouched is observed, not proved (Go aliasing).",
 }
 
@@ -127,7 +127,7 @@ PROPS["C03"] = {
                     "I3: initial device paths and mount destinations are unique",
                     "edit lists contain no nil entries (validated Specs, C05)"],
     "technique": "Lean 4 proof: clause-wise postcondition of the Apply model (env cache invariant, remove/replace folds = filter ++ last occurrence, stable-sort invariants, hook dispatch, gid dedup) => judge; correspondence on generated OCI specs x edit lists with real mknod host nodes",
-    "level_text": "Kernel-checked theorem: for every well-formed initial OCI spec, nil-free edit list and host, whenever the Apply model succeeds its result satisfies the declarative judge: env = initial entries ++ one entry per edited variable holding its last edit; devices = untouched initial devices ++ the last edit per container path with host-derived type/major/minor and uid/gid defaulting; one allow rule per b/c node with its permissions or rwm; mounts = untouched initial mounts ++ last edit per destination, ordered by depth and, per depth, in the previous order; hooks appended per stage; gids appended without 0 or repeats; RDT replaced; it never panics and fails exactly on a host lookup failure or unknown hook. Tied to the code by running ContainerEdits.Apply on generated specs (nil/empty/populated sections, colliding devices and mounts, non-clean destinations, repeated variable names/paths/destinations, every hook stage, process uid/gid zero or not) with host nodes created by mknod (c, b, fifo, regular file, missing), comparing the canonical OCI image with the model, judging it with the same judge, and checking that everything outside the modelled sections is byte-identical.",
+    "level_text": "Kernel-checked theorem: for every well-formed initial OCI spec, nil-free edit list and host, whenever the Apply model succeeds its result satisfies the declarative judge: env = initial entries ++ one entry per edited variable holding its last edit; devices = untouched initial devices ++ the last edit per container path with host-derived type/major/minor and uid/gid defaulting; one allow rule per b/c node with its permissions or rwm; mounts = untouched initial mounts ++ last edit per destination, ordered by depth and, per depth, in the previous order; hooks appended per stage; gids appended without 0 or repeats; RDT replaced; it never panics and fails exactly on a host lookup failure or unknown hook. Tied to the code by running ContainerEdits.Apply on generated specs (nil/empty/populated sections, colliding devices and mounts, non-clean destinations, repeated variable names/paths/destinations, every hook stage, process uid/gid zero or not) with host nodes created by mknod (c, b, fifo, regular file, missing), comparing the canonical OCI image with the model, judging it with the same judge, and checking that everything outside the modelled sections is byte-identical. The host nodes behind the fixed host paths change from case to case (nothing remembered about a path from an earlier Apply in the process is still true).",
     "level_note": "Trusted: Lean kernel; the generator model; host stat given as data. Partial application after a failing Apply is not modelled.",
 }
 
@@ -152,7 +152,7 @@ PROPS["C17"] = {
                      "yaml/json text codecs (documents are generated at the value level and rendered)"],
     "assumptions": ["documents have no duplicate member names", "I9: byte entry points may add the annotation verdict, identically for both encodings"],
     "technique": "translation validation: Lean draft-07 evaluator over the regenerated schema term vs gojsonschema through every entry point x encoding x schema choice; Lean theorems for the glue (none/nil accept, entry points agree on well-formed annotations, encoding independence)",
-    "level_text": "The schema files are regenerated into a Lean Schema term on every run and evaluated by a Lean definition of draft-07 (type, properties, required, items, patternProperties, minimum, maximum on exact decimals). Documents generated from the Spec shape - valid ones, and one violation of each keyword at each level (wrong member types incl. scalars, missing required members, extra members, numbers at and beyond every bound incl. +-2^63 and 2^32, fractions, 7.0) - are pushed through ValidateData (JSON and YAML bytes), ValidateFile (.json and .yaml), ValidateReader and ReadAndValidate for the builtin schema, an externally loaded copy, the none schema and a nil schema; every verdict must equal the Lean verdict, JSON and YAML bytes must agree, none/nil must accept. Kernel-checked theorems cover the glue: a nil or none schema accepts every document, all entry points return the engine verdict on documents whose annotations are well-formed, and the byte entry point is encoding-independent.",
+    "level_text": "The schema files are regenerated into a Lean Schema term on every run and evaluated by a Lean definition of draft-07 (type, properties, required, items, patternProperties, minimum, maximum on exact decimals). Documents generated from the Spec shape - valid ones, and one violation of each keyword at each level (wrong member types incl. scalars, missing required members, extra members, numbers at and beyond every bound incl. +-2^63 and 2^32, fractions, 7.0) - are pushed through ValidateData (JSON and YAML bytes), ValidateFile (.json and .yaml), ValidateReader and ReadAndValidate for the builtin schema, an externally loaded copy, the none schema and a nil schema; every verdict must equal the Lean verdict, JSON and YAML bytes must agree, none/nil must accept; the same JSON document in other spellings (escaped solidus, \\u escapes incl. surrogate pairs, indentation); the accessor/constructor forms (Set/Get, WithSchema, WithNamedSchema, WithDefaultSchema, ValidateType); and the very first use of the builtin schema by 32 goroutines at once in fresh processes. Kernel-checked theorems cover the glue: a nil or none schema accepts every document, all entry points return the engine verdict on documents whose annotations are well-formed, and the byte entry point is encoding-independent.",
     "level_note": "Partial: engine conformance is tested, not proved. Trusted: Lean kernel for the glue theorems; factgen; renderers.",
 }
 
@@ -189,7 +189,7 @@ PROPS["C09"] = {
                      "factgen F3 (struct tags)"],
     "assumptions": ["values of the Go type cdi.Spec: integers within their field types, map keys unique"],
     "technique": "Lean 4 proof of the data-model round trip (decodeSpec . encodeSpec = id for every typed Spec; tags agree) parametric in a text-codec law + translation validation of that law: whole-system WriteSpec/ReadSpec round trips and a sweep of the string space through both real codecs",
-    "level_text": "Kernel-checked: the json and yaml struct tags coincide for every field (regenerated table), and for every value of the Go type cdi.Spec - all optional fields, nil entries, integer extremes - decoding the JSON value the library encodes returns exactly that Spec; hence with any text codec that preserves the document, the file written under a .json, .yaml or extension-less name reads back equal and both encodings are interchangeable. The codec law itself is third-party behaviour and is validated, not proved: every run writes Specs filled with YAML-sensitive spellings and integer extremes through Cache.WriteSpec under all three kinds of name and reads them back with cdi.ReadSpec and through a cache, and sweeps every BMP code point (and samples of the other planes) in several contexts through both writer/reader pairs. The sweep pins two classes of strings that do not survive (known findings); any other failure is a violation.",
+    "level_text": "Kernel-checked: the json and yaml struct tags coincide for every field (regenerated table), and for every value of the Go type cdi.Spec - all optional fields, nil entries, integer extremes - decoding the JSON value the library encodes returns exactly that Spec; hence with any text codec that preserves the document, the file written under a .json, .yaml or extension-less name reads back equal and both encodings are interchangeable. The codec law itself is third-party behaviour and is validated, not proved: every run writes Specs filled with YAML-sensitive spellings and integer extremes through Cache.WriteSpec under all three kinds of name and reads them back with cdi.ReadSpec and through a cache, and sweeps every BMP code point (and samples of the other planes) in several contexts through both writer/reader pairs. The sweep pins two classes of strings that do not survive (known findings); any other failure is a violation. Each kind of edit alone at Spec level and at device level, and twelve goroutines writing their own Specs under their own names through one cache (each reading its file back after every write) are part of every run.",
     "level_note": "Partial: string survival in the text codecs is tested, not proved. Known findings: JSON files with U+007F-U+009F/U+FFFE/U+FFFF; YAML files with multi-line strings starting with a space or line break.",
 }
 
@@ -217,7 +217,7 @@ PROPS["C11"] = {
     "assumptions": ["I8: the alphabet is the one of the statement (files created, rewritten, replaced by rename, moved or linked in, renamed away, removed; the directory missing at start, created, removed, recreated) - the configured directory itself is not renamed",
                     "'soon' = within the polling deadline (4 s) after the history ends"],
     "technique": "Lean 4 proof: inductive invariant of the watch/update/scan/query state machine over every interleaving with file-system operations => convergence once the queue is drained; pinned defects refuted by witnesses; histories on the real kernel at several pacings incl. controlled pacing through the exported cache mutex",
-    "level_text": "Kernel-checked theorem over the abstract state machine of one configured directory (kernel watch attached or not, watcher's belief, event queue, pending scan, staleness): for every finite history of file-system operations interleaved in any way with the watcher's event handling, its scans (file-system operations may fall between update and scan) and queries, once the queue is drained the next query is not stale, i.e. returns what a fresh cache returns; the proof is an invariant preserved by every step, with no bound on the history. Both defects of the pinned tree (Create events dropped; a directory scanned while unwatched and then removed) are counterexamples proved in Lean and reproduced on the real code. Tied to the code by validating the event table with a plain fsnotify watcher and by running fixed and random histories against a real auto-refresh cache (no Refresh call) at three pacings plus controlled pacing (the harness holds the exported cache mutex across groups of operations), polling queries until they equal a fresh cache.",
+    "level_text": "Kernel-checked theorem over the abstract state machine of one configured directory (kernel watch attached or not, watcher's belief, event queue, pending scan, staleness): for every finite history of file-system operations interleaved in any way with the watcher's event handling, its scans (file-system operations may fall between update and scan) and queries, once the queue is drained the next query is not stale, i.e. returns what a fresh cache returns; the proof is an invariant preserved by every step, with no bound on the history. Both defects of the pinned tree (Create events dropped; a directory scanned while unwatched and then removed) are counterexamples proved in Lean and reproduced on the real code. Tied to the code by validating the event table with a plain fsnotify watcher and by running fixed and random histories against a real auto-refresh cache (no Refresh call) at three pacings plus controlled pacing (the harness holds the exported cache mutex across groups of operations), polling queries until they equal a fresh cache; histories over two and three directories (a later directory goes away and comes back with a Spec overriding a device that still resolves), a query that falls into a slow scan of the watcher goroutine, and observation the way a container runtime does it (one InjectDevices call naming the expected devices and no other query). Obligation F9_scan_and_publication_atomic (regenerated from cache.go): in every entry point and in the watcher goroutine a directory scan happens under the mutex and its result is published before the mutex is released - the atomicity of the machine's scan and query steps.",
     "level_note": "Partial: inotify semantics, queue overflow, goroutine scheduling and timing are the kernel's and runtime's; the model covers one directory (directories are independent in watch.update).",
 }
 
